@@ -450,8 +450,14 @@ def main(argv=None):
 
     # 1. translator
     from translator import gen
-    tr = gen.regenerate()
     needed = list(getattr(module, "GENERATED", []))
+    # only this property's generated files are rewritten (other checks may be running concurrently
+    # against another VERIF_REPO); files that do not exist yet are generated too
+    missing = [os.path.basename(p)[4:-3] for p in glob.glob(os.path.join(VERIF, "translator", "gen_*.py"))]
+    tr = gen.regenerate(only=needed) if needed else {}
+    tr_all = None
+    if not all(os.path.exists(os.path.join(COQ, "Generated", f)) for f in needed):
+        tr_all = gen.regenerate()
     for out in needed:
         r = tr.get(out)
         if r is None:
